@@ -113,6 +113,20 @@ CHECKS = {
         "known finding (KF-C15-1), excluded per class and replayed.",
         "DESIGN.md 3/C15",
     ),
+    "C01": (
+        "Hypothesis-generated malicious/corrupted pickles + product cells through 14 analysis "
+        "entry points under an audit-hook effect monitor; coverage-guided atheris byte fuzzing "
+        "with the monitor as in-target oracle",
+        "Generated-input search with an independent effect oracle: CPython audit events, "
+        "sys.modules delta and working-directory delta are recorded while every analysis entry "
+        "point runs on generated malicious, hand-assembled and corrupted inputs; any execution-"
+        "class event, import of a module named by the input, write or stray file is a violation. "
+        "atheris explores raw bytes from an empty and a seeded corpus.",
+        "Trusted: CPython's audit-hook coverage of exec/compile/import/open/process/socket "
+        "events; effects that raise no audit event and leave no trace in cwd/sys.modules are "
+        "invisible.",
+        "DESIGN.md 3/C01",
+    ),
 }
 
 PENDING = {}
